@@ -34,17 +34,26 @@ class C13(Prop):
     the leaf-elimination loop compared on every case."""
 
     id = "C13"
-    level = "other"
+    level = "proof"
     design_ref = "§8 C13"
-    level_text = ("Lean: verified witness checker for 'spanning tree on which every top-k set is connected', brute-force "
-                  "decider over all spanning trees, model of the repaired leaf-elimination loop with theorems that a "
-                  "returned edge list is a spanning tree attaching each removed alternative to a surviving one. "
-                  "Exactness of the verdict (Trick's theorem) is tested against the verified brute force and planted "
-                  "profiles, not proved")
-    level_note = ("Lean kernel + standard axioms for the checker theorems; verdict exactness rests on differential "
-                  "testing; Python set iteration order is not modelled (witnesses are compared by validity only)")
-    technique = "Lean-verified witness checker and brute-force decider + executable Lean model, differential correspondence"
-    theorems = []
+    level_text = ("Lean theorems about a statement-faithful model of the repaired leaf-elimination loop: whenever it "
+                  "answers True the edge list is a spanning tree of the alternatives on which every voter's k most "
+                  "preferred alternatives are connected for every k (isSPOnTree_sound, by the backward re-attachment "
+                  "argument: b in B(a) is ranked above a by every voter, or second when a is on top); the executable "
+                  "connectivity test and the witness checker are proved equivalent to the declarative path-based "
+                  "definition. The converse (a False answer is always right, Trick's theorem) is compared with the "
+                  "verified brute force over all spanning trees (m <= 6) and planted profiles on every run: tested, not "
+                  "proved")
+    level_note = ("Lean kernel + standard axioms; hand-written model tied to the code by the correspondence check; Python "
+                  "set iteration order is not modelled (witnesses are compared by validity only); exactness of 'False' "
+                  "rests on differential testing")
+    theorems = [
+        "PrefVerif.C13.connectedIn_iff",
+        "PrefVerif.C13.sptWitness_iff",
+        "PrefVerif.C13.isSPOnTree_sound",
+        "PrefVerif.C13.isSPOnTree_spanning",
+        "PrefVerif.C13.connectedIn_iff'",
+    ]
     rule = ("exhaustive: all profiles of <= 3 distinct orders over 3 alternatives and <= 2 over 4; random m<=6, n<=5 "
             "against brute force over spanning trees; planted tree-single-peaked profiles up to m=25 and one-swap "
             "perturbations; non-trivial = >= 2 orders and >= 3 alternatives")
